@@ -55,6 +55,8 @@ func Interface(ifaceVar interface{}, ctx *iface.IContext, method string, imp int
 		// 构造 iface 对象
 		fakeIface = iface.MakeInterface(ctx, funcTabIndex, itabFunc, typ)
 		ctx.Cache(ifaceCacheKey, fakeIface)
+		// 在已取消的上下文上再次 mock (比如 Reset 之后通过保留的句柄): 上下文重新生效
+		ctx.Resume()
 		applyIfaceTo(fakeIface, gen)
 	}
 	return nil
